@@ -206,9 +206,27 @@ func drive(ch []int) {
 type stackRec struct {
 	chain chainIn
 	sc    *counter.StackCounter
-	idx   int // index in sc's stacks
+	idx   int // index in sc.Counters() (creation order)
+	pcs   []uintptr
 	runs  int
 	once  bool
+}
+
+// pcGrab stands in for the stack counter in a second run of a chain: the leaf
+// calls tab.C.Inc() through the interface, i.e. with the very same call
+// instruction, so runtime.Callers(2, ...) sees exactly the return addresses
+// (*StackCounter).Inc records.  Nothing of StackCounter's private
+// representation is read.
+type pcGrab struct {
+	depth int
+	pcs   []uintptr
+}
+
+//go:noinline
+func (g *pcGrab) Inc() {
+	pcs := make([]uintptr, g.depth)
+	n := runtime.Callers(2, pcs) // caller of Inc
+	g.pcs = pcs[:n]
 }
 
 func TestVerifC15Enc(t *testing.T) {
@@ -303,7 +321,7 @@ func TestVerifC15Enc(t *testing.T) {
 			work = nil
 			var cand []*stackRec
 			for _, r := range recs {
-				_, ctrs := r.sc.VStacks()
+				ctrs := r.sc.Counters()
 				if n := ctrs[r.idx].Name(); len(n) > 2500 && len(n) < 4080 && !strings.Contains(n[len(n)-20:], "truncated") && r.chain.Extra == 0 {
 					cand = append(cand, r)
 				}
@@ -312,7 +330,7 @@ func TestVerifC15Enc(t *testing.T) {
 				}
 			}
 			for k, r := range cand {
-				_, ctrs := r.sc.VStacks()
+				ctrs := r.sc.Counters()
 				base := len(ctrs[r.idx].Name()) - len(r.chain.Prefix)
 				for target := 4090; target <= 4100; target++ {
 					c := r.chain
@@ -346,25 +364,37 @@ func TestVerifC15Enc(t *testing.T) {
 				scs[key] = sc
 			}
 			ckey := fmt.Sprint(key, strings.Join(c.Fns, ","))
-			tab.C = sc
-			n0 := sc.VNumStacks()
-			drive(ch) // the one call site of every chain
-			n1 := sc.VNumStacks()
-			r := seen[ckey]
-			switch {
-			case r == nil && n1 == n0+1:
-				r = &stackRec{chain: c, sc: sc, idx: n0, runs: 1, once: true}
-				seen[ckey] = r
-				recs = append(recs, r)
-			case r == nil:
-				// a new call stack did not get a counter of its own
-				problems++
-				rt.Out(rt.M{"kind": "cache", "what": "new-stack-no-new-counter", "chain": c.Fns, "depth": key.depth, "before": n0, "after": n1})
-			default:
-				r.runs++
-				if n1 != n0 {
-					r.once = false
+			grab := &pcGrab{depth: key.depth}
+			for g := 0; g < 2; g++ {
+				tab.C = sc
+				if g == 1 {
+					tab.C = grab // second run of a new chain: record its PCs
 				}
+				n0 := len(sc.Counters())
+				drive(ch) // the one call site of every chain
+				if g == 1 {
+					seen[ckey].pcs = grab.pcs
+					break
+				}
+				n1 := len(sc.Counters())
+				r := seen[ckey]
+				switch {
+				case r == nil && n1 == n0+1:
+					r = &stackRec{chain: c, sc: sc, idx: n0, runs: 1, once: true}
+					seen[ckey] = r
+					recs = append(recs, r)
+					continue
+				case r == nil:
+					// a new call stack did not get a counter of its own
+					problems++
+					rt.Out(rt.M{"kind": "cache", "what": "new-stack-no-new-counter", "chain": c.Fns, "depth": key.depth, "before": n0, "after": n1})
+				default:
+					r.runs++
+					if n1 != n0 {
+						r.once = false
+					}
+				}
+				break
 			}
 		}
 	}
@@ -394,19 +424,13 @@ func TestVerifC15Enc(t *testing.T) {
 	}
 	infos := map[*stackRec]*info{}
 	nTrunc, nLong := 0, 0
-	type snap struct {
-		pcs  [][]uintptr
-		ctrs []*counter.Counter
-	}
-	snaps := map[*counter.StackCounter]snap{}
+	snaps := map[*counter.StackCounter][]*counter.Counter{}
 	for _, sc := range scs {
-		p, c := sc.VStacks()
-		snaps[sc] = snap{p, c}
+		snaps[sc] = sc.Counters()
 	}
 	for _, r := range recs {
-		pcs, ctrs := snaps[r.sc].pcs, snaps[r.sc].ctrs
-		name := ctrs[r.idx].Name()
-		unc := uncompressed(r.chain.Prefix, pcs[r.idx])
+		name := snaps[r.sc][r.idx].Name()
+		unc := uncompressed(r.chain.Prefix, r.pcs)
 		tail := name
 		if len(tail) > 40 {
 			tail = tail[len(tail)-40:]
@@ -418,7 +442,7 @@ func TestVerifC15Enc(t *testing.T) {
 		if len(strings.Join(unc, "\n")) > 2*maxNameLen {
 			nLong++ // even fully abbreviated this cannot fit: it must be cut
 		}
-		infos[r] = &info{name, unc, marked, pcs[r.idx]}
+		infos[r] = &info{name, unc, marked, r.pcs}
 		byName[name] = append(byName[name], r)
 	}
 	for _, r := range recs {
